@@ -4,3 +4,5 @@ import RagcModel.Model.Tuple
 import RagcModel.Model.SegCompress
 import RagcModel.Model.Segment
 import RagcModel.Model.Queue
+import RagcModel.Model.Varint
+import RagcModel.Model.Container
